@@ -13,7 +13,8 @@ Mirror of the reader-dependent rewrites of C15: `simplify(ixreader)` and `estima
 * `query/wrappers.py`  `Not.estimate_size`, `WrappingQuery.estimate_size`
 * `query/qcore.py`     `Query.simplify`, `_NullQuery/Every.estimate_size`
 
-Not mirrored: `NumericRange.simplify/estimate_size` compile the range into tiered byte terms
+Not mirrored: `estimate_size` of span queries (the model answers `none`, "not modelled", so the
+estimate theorem says nothing about trees that contain one); `NumericRange.simplify/estimate_size` compile the range into tiered byte terms
 (property C13); the model leaves the leaf alone resp. sums document frequencies like the other
 multi-term leaves, and the check compares these two operations on real objects only.
 -/
@@ -116,6 +117,7 @@ def estimate (multi : Nat → Field → Text → Nat → Text → Bool)
     | some x, some y => some (Nat.min (x + y) rd.docCount)
     | _, _ => none
   | .const q _ => estimate multi bracket rd q
+  | .opq _ _ => none
 def estimateList (multi : Nat → Field → Text → Nat → Text → Bool)
     (bracket : Text → Option ((Nat → Bool) × Nat)) (rd : Reader) : List Q → Option (List Nat)
   | [] => some []
